@@ -140,4 +140,11 @@ CHECKS = {
              'Random evaluations of the real UNIFAC / Dortmund / NIST / ideal objects (2-6 chemicals, with and without group data, interior, vertex, near-vertex, trace and edge compositions, 250-450 K) log side effects, ones for chemicals without groups, '
              'functional form vs object call, permutation difference, pure-component limit and the Gibbs-Duhem residual; TLC judges each.',
         note='Trusted: TLC; numerical clauses measured in floating point by the driver (central differences for Gibbs-Duhem).'),
+    'C08': dict(
+        engine='BubbleDew', category='model_checking',
+        technique='TLA+ spec defining bubble / dew points of ideal mixtures with Psat = a T as exact rationals (BubbleDew.tla), model-checked by TLC for the C08 statements; values returned by real BubblePoint / DewPoint objects on such synthetic chemicals and measured residuals on real packages are validated by TLC',
+        text='TLC checks bracketing (dew <= bubble pressure, bubble <= dew temperature), round trip, normalised compositions, single-component = saturation and scale independence on the rational definition for all weight vectors of the grid. '
+             'Real BubblePoint / DewPoint objects on synthetic chemicals (ideal package) are called with 1-5 components incl. zero and trace ones, at any scale and order of the list, and the returned T, P, y / x compared with the rationals by TLC. '
+             'For water-alcohol and hydrocarbon packages (ideal and Dortmund UNIFAC) the driver re-evaluates the defining equations with the library\'s own model objects and logs residuals for every clause; TLC judges them.',
+        note='Trusted: TLC; Psat / Gamma / Phi / PCF objects of the library when re-evaluating the equations on real packages (C16 covers Gamma); tolerance 1e-6 relative there.'),
 }
